@@ -84,21 +84,17 @@ def build(ctx):
     g.trace('tr_DQ_matrix', [('a', 'V8')], lambda a: DQ(a).matrix())
     g.trace('tr_DQ_norm', [('a', 'V8')], lambda a: np.array(DQ(a).norm(), dtype=object), out='V2',
             num_fn=lambda a: np.array(DQ(a).norm()),
-            sampler=lambda rng: [udq_vec(rng)], tol=1e-6)
+            sampler=lambda rng: [udq_vec(rng) if rng.random() < 0.5 else rng.normal(size=8) * log_uniform(rng, 1e-3, 1e3)], tol=1e-9)
     # the dual part the UnitDualQuaternion(SE3) constructor builds from (rotation quaternion q, translation t)
     g.trace('tr_UDQ_dual', [('q', 'V4'), ('t', 'V3')], lambda q, t: (0.5 * Quaternion.Pure(t) * Q(q)).vec)
     return g
 
 
 def udq_vec(rng):
-    """8-vector of a unit dual quaternion built from a rigid motion (independent construction),
-    nudged so that real.dual >= 0 exactly representable cases dominate (sqrt of -eps is an L-impl finding, see oracle)"""
+    """8-vector of a unit dual quaternion built from a rigid motion (independent construction)"""
     q = rand_unit(rng, 4)
-    t = rng.normal(size=3)
-    d = 0.5 * hamilton(np.r_[0, t], q)
-    # make <q,d> a tiny positive number so that both paths take sqrt of a non-negative value
-    d = d + q * 1e-3
-    return np.r_[q, d]
+    t = rng.normal(size=3) * log_uniform(rng, 1e-3, 1e3)
+    return np.r_[q, 0.5 * hamilton(np.r_[0, t], q)]
 
 
 def hamilton(p, q):
@@ -654,6 +650,14 @@ def oracle(ctx):
         chk('dq-assoc', ((DQ(a8) * DQ(b8)) * DQ(c8)).vec, (DQ(a8) * (DQ(b8) * DQ(c8))).vec, sc * np.linalg.norm(c8), np.r_[a8, b8, c8])
         chk('dq-matrix', DQ(a8).matrix() @ b8, (DQ(a8) * DQ(b8)).vec, sc, np.r_[a8, b8])
         chk('dq-conj', DQ(a8).conj().vec, a8 * np.r_[1, -1, -1, -1, 1, -1, -1, -1], np.linalg.norm(a8), a8)
+        # the norm is the dual-number square root: (n + eps m)^2 = <r,r> + eps 2<r,d>
+        try:
+            with np.errstate(all='ignore'):
+                n_, m_ = (float(x) for x in DQ(a8).norm())
+            chk('dq-norm-dual-sqrt', [n_ * n_, 2 * n_ * m_], [a8[:4] @ a8[:4], 2 * (a8[:4] @ a8[4:])], np.linalg.norm(a8) ** 2, a8)
+        except Exception as ex:
+            ctx.fail(f'oracle:dq-norm:raises:{type(ex).__name__}', f"DualQuaternion.norm() raises {type(ex).__name__}: {ex}",
+                     {'a_hex': [float(x).hex() for x in a8]})
         # norm of a unit dual quaternion built from a rigid motion: always defined, (1, 0) to 1e-6
         T = np.eye(4)
         T[:3, :3] = rand_rot(rng)
@@ -672,6 +676,17 @@ def oracle(ctx):
         except Exception as ex:
             ctx.fail(f'oracle:udq-norm:raises:{type(ex).__name__}:{ex}', f"UnitDualQuaternion(SE3).norm() raises {type(ex).__name__}: {ex}",
                      {'T_hex': [float(x).hex() for x in T.flatten()]})
+        # class of a product: unit only when BOTH factors are unit dual quaternions; the values obey the same product
+        if i % 8 == 0:
+            U, D8 = UnitDualQuaternion(SE3(T, check=False)), DQ(a8)
+            ctx.case(('dq-mul-class', tuple(T.flatten())))
+            ctx.count('oracle:dq-mul-class')
+            got = [type(U * U).__name__, type(U * D8).__name__, type(D8 * U).__name__, type(D8 * D8).__name__]
+            want = ['UnitDualQuaternion', 'DualQuaternion', 'DualQuaternion', 'DualQuaternion']
+            if got != want:
+                ctx.fail('oracle:dq-mul-class', f"classes of U*U, U*D, D*U, D*D are {got}, expected {want}",
+                         {'T_hex': [float(x).hex() for x in T.flatten()], 'a_hex': [float(x).hex() for x in a8]})
+            chk('dq-mul-unit-left', (U * D8).vec, (DQ(U.vec) * D8).vec, np.linalg.norm(U.vec) * np.linalg.norm(a8), np.r_[U.vec, a8])
     ctx.sample({'kind': 'oracle', 'identity': 'assoc', 'p': p.tolist(), 'q': q.tolist(), 'r': r.tolist()})
 
 
